@@ -5,8 +5,8 @@ From FV Require Model.Shell gen.Runner_atlas_r21 gen.Runner_cms_r5 gen.Runner_cm
 Definition dispatch (cmd : string) (arg : sexp) : sexp :=
   if String.eqb cmd "c15.gen" then ScriptBlocks.run_gen arg
   else if String.eqb cmd "c12.audit" then MathFuncs.audit math_env documented
-  else if String.eqb cmd "c16.atlas_r21" then Shell.run_wire Runner_atlas_r21.script Shell.pkg_atlas arg
-  else if String.eqb cmd "c16.cms_r5" then Shell.run_wire Runner_cms_r5.script Shell.pkg_cms arg
-  else if String.eqb cmd "c16.cms_r7" then Shell.run_wire Runner_cms_r7.script Shell.pkg_cms arg
+  else if String.eqb cmd "c16.atlas_r21" then Shell.run_wire Runner_atlas_r21.script Shell.pkg_atlas Shell.slots_atlas arg
+  else if String.eqb cmd "c16.cms_r5" then Shell.run_wire Runner_cms_r5.script Shell.pkg_cms Shell.slots_cms arg
+  else if String.eqb cmd "c16.cms_r7" then Shell.run_wire Runner_cms_r7.script Shell.pkg_cms Shell.slots_cms arg
   else if String.eqb cmd "c16.getopts" then Shell.run_getopts arg
   else s_tag "unknown-command" [SAtom cmd].
